@@ -31,4 +31,5 @@ def with_state_lint(prop, run):
             shared.arg_binding(check, rels)
             shared.edge_orientation(check, rels)
             shared.handlers_unchanged(check, rels)
+            shared.copy_source_untouched(check, rels)
     return wrapped
